@@ -463,8 +463,24 @@ func bisyncTxnDebugSummary(cmds []bisyncAofCommand) string {
 	return strings.Join(parts, ",")
 }
 
-func (ro *RedisOutput) parseAofReplayUnits(replayQuit usync.WaitCloser, reader *bufio.Reader, startOffset int64, unitBuf chan *bisyncReplayUnit) error {
-	defer close(unitBuf)
+func (ro *RedisOutput) parseAofReplayUnits(replayQuit usync.WaitCloser, reader *bufio.Reader, startOffset int64, unitBuf chan *bisyncReplayUnit) (err error) {
+	// The senders take a closed unitBuf for the clean end of the stream and return
+	// without an error, and sendAofBisync closes replayQuit with what they return.
+	// So the reason the parser stops (refused unit, corrupted stream, EOF, panic)
+	// must be recorded BEFORE the channel closes; recording it only after this
+	// function had returned let the sender's nil win the race and turned a refusal
+	// into a clean end (no error logged, no backoff, corrupted cache kept).
+	defer func() {
+		if r := recover(); r != nil {
+			replayQuit.Close(fmt.Errorf("panic: %v", r))
+			close(unitBuf)
+			panic(r)
+		}
+		if err != nil {
+			replayQuit.Close(err)
+		}
+		close(unitBuf)
+	}()
 	defer ro.logger.Infof("scheme1 replay-unit parser is stopped")
 	keyResolver, closeResolver := ro.newBisyncCommandKeyResolver()
 	defer closeResolver()
